@@ -1,6 +1,6 @@
 SPECIFICATION MSpec
 CONSTANTS
-  MaxEvents = 5
+  MaxEvents = 6
   MaxMeasures = 2
   Durs = {1, 2}
 INVARIANT CursorInMeasure
